@@ -143,6 +143,9 @@ fn c11(seed: u64, thorough: bool) -> Scenario {
         g.world.stdin = StdinSpec::Piped;
         let n = g.world.files.len();
         g.add_affects(&cfg);
+        if g.rng.chance(1, 5) {
+            g.add_shared_shorthand_affects();
+        }
         for i in 0..n {
             let roll = g.rng.below(8);
             if roll < 5 {
@@ -477,6 +480,7 @@ fn c13(seed: u64, thorough: bool) -> Scenario {
     g.gen_files(&cfg);
     let kind = *g.rng.pick(MALFORMATIONS);
     let (block, carrier) = malformed_block(&mut g, kind);
+    let malformed_attrs = block.attrs.clone();
     // place it
     let nfiles = g.world.files.len();
     let fi = g.rng.below(nfiles);
@@ -527,6 +531,26 @@ fn c13(seed: u64, thorough: bool) -> Scenario {
         g.world.stdin = StdinSpec::Terminal;
     }
     make_healthy_except(&mut g.world, &carrier_path);
+    // the usual way a malformed rule arrives: its start tag was edited, and a content line with it
+    if diff_mode && g.rng.chance(1, 3) {
+        let r = render_file(&g.world.files[fi], false);
+        if let Some(b) = r.blocks.iter().find(|b| b.attrs == malformed_attrs && b.tag_lines == 1) {
+            let inside: Vec<usize> = g
+                .insert_candidates(fi)
+                .into_iter()
+                .filter(|l| b.start_line + 1 < *l && *l < b.end_line)
+                .collect();
+            if !inside.is_empty() && !r.lines[b.start_line - 1].contains('~') {
+                let l = *g.rng.pick(&inside);
+                g.world.files[fi].diff = FileDiff::Insert {
+                    line: b.start_line,
+                    renamed_from: None,
+                    edit: LineEdit::Replaced { old: "~~~~~~~~".into() },
+                    more: vec![(l, LineEdit::Inserted)],
+                };
+            }
+        }
+    }
     // positional globs that may or may not match the carrier file: with a diff, a file outside
     // the globs is still examined through the diff; without one it is simply out of scope
     if g.rng.chance(1, 4) {
@@ -606,6 +630,13 @@ fn c13(seed: u64, thorough: bool) -> Scenario {
         world.args.globs.clear();
         world.args.ignore.clear();
         got = genw::expected_kind(&world);
+    }
+    if want_failed && got != "failed" {
+        // the one-line edits of the carrier file were moved off the malformed block by a later step
+        if let Some(f) = world.files.iter_mut().find(|f| f.path == carrier_path && matches!(f.diff, FileDiff::Insert { .. })) {
+            f.diff = FileDiff::Added;
+            got = genw::expected_kind(&world);
+        }
     }
     if want_failed && got != "failed" {
         panic!("HARNESS-BUG: C13 generator wanted a failing world for {kind}, model says {got}: {}", serde_json::to_string(&world).unwrap());
@@ -727,6 +758,9 @@ fn c14(seed: u64, thorough: bool) -> Scenario {
         g.world.stdin = StdinSpec::Piped;
         let n = g.world.files.len();
         g.add_affects(&cfg);
+        if g.rng.chance(1, 5) {
+            g.add_shared_shorthand_affects();
+        }
         for i in 0..n {
             let roll = g.rng.below(8);
             if roll < 5 {
